@@ -1404,6 +1404,21 @@ fire("c10-remainder-variable-too-short", "C10", SUMPROD, "            Variable(t
 fire("c10-naive-fold-roles-swapped", "C10", SUMPROD,
      "        y = factors.pop()(**prev_to_drop)\n        x = factors.pop()(**curr_to_drop)\n", "        y = factors.pop()(**curr_to_drop)\n        x = factors.pop()(**prev_to_drop)\n", "R10.3", "naive_sequential_sum_product")
 
+# ---- C14 (claimed since round 8)
+fire("c14-sample-decodes-front-to-back", "C14", TENSOR,
+     "        for name, domain in reversed(list(event_inputs.items())):\n", "        for name, domain in list(event_inputs.items()):\n", "R14.4", "Tensor._sample")
+fire("c14-sample-divides-before-taking-the-digit", "C14", TENSOR,
+     "            point = Tensor(mod_sample % size, sb_inputs, size)\n            mod_sample = mod_sample // size\n", "            mod_sample = mod_sample // size\n            point = Tensor(mod_sample % size, sb_inputs, size)\n", "R14.4", "Tensor._sample")
+fire("c14-sample-aligned-event-first", "C14", TENSOR,
+     "        be_inputs = batch_inputs.copy()\n        be_inputs.update(event_inputs)\n", "        be_inputs = event_inputs.copy()\n        be_inputs.update(batch_inputs)\n", "R14.4", "Tensor._sample")
+fire("c14-delta-plus-funsor-substitutes-every-point", "C14", DELTA,
+     "                for name, (point, log_density) in lhs.terms\n                if name in rhs.inputs\n            }\n        )\n        return op(lhs, rhs)\n\n    return None  # defer to default implementation\n\n\n@eager.register(Binary, AddOp, (Funsor, Align), Delta)",
+     "                for name, (point, log_density) in lhs.terms\n            }\n        )\n        return op(lhs, rhs)\n\n    return None  # defer to default implementation\n\n\n@eager.register(Binary, AddOp, (Funsor, Align), Delta)", "R14.2", "eager_add_delta_funsor")
+fire("c14-subs-sample-forgets-the-key", "C14", TERMS,
+     "        arg = self.arg._sample(subs_sampled_vars, sample_inputs, rng_key)\n", "        arg = self.arg._sample(subs_sampled_vars, sample_inputs, None)\n", "R14.5", "Subs._sample")
+silent("c14-s-sample-digit-via-divmod-spelling", "C14", TENSOR,
+       "            point = Tensor(mod_sample % size, sb_inputs, size)\n            mod_sample = mod_sample // size\n", "            digit = mod_sample % size\n            point = Tensor(digit, sb_inputs, size)\n            mod_sample = mod_sample // size\n")
+
 # ===== derived variants: must stay at the END of this file (they enumerate every rename() variant above) =====
 # `if c: A else: B` -> `if not c: B else: A` in the anchor functions (behaviour-preserving)
 def invert(prop, file, qual):
@@ -1426,7 +1441,7 @@ for _v in list(V):
         invert(_v["prop"], _v["transform"][1], _v["transform"][2])
 
 # every local of every top-level function / method of the whole package renamed at once
-for _p in ("C01", "C02", "C03", "C04", "C05", "C06", "C07", "C08", "C09", "C10", "C11", "C15", "C16", "C17", "C18", "C19", "C20"):
+for _p in ("C01", "C02", "C03", "C04", "C05", "C06", "C07", "C08", "C09", "C10", "C11", "C14", "C15", "C16", "C17", "C18", "C19", "C20"):
     V.append(dict(id=f"{_p.lower()}-s-rename-all-locals", prop=_p, kind="silent", transform=("rename_all_locals", "", "")))
     for _t in ("invert_all_ifs", "all_returns_via_temp", "all_else_after_return"):
         V.append(dict(id=f"{_p.lower()}-s-{_t.replace('_', '-')}", prop=_p, kind="silent", transform=(_t, "", "")))
